@@ -304,6 +304,16 @@ def selCanon (orderInsensitive caseInsensitive timeInsensitive : List String) (f
       | none => v
     else v
 
+/-- a request validates the stored response when the preconditions it carries are exactly the stored
+    validators (RFC 9111 §4.3.1: If-None-Match from the stored ETag, If-Modified-Since from the stored
+    Last-Modified). When a precondition of the client's own reaches the origin because the stored
+    response has no validator of that kind, a 304 may be about the client's copy and says nothing about
+    the stored one: it is the origin's answer to the client, not a validation result. -/
+def isValidationOf (stored call : Header) : Bool :=
+  let own (v : Str) : List Str := if v.isEmpty then [] else [v]
+  Header.values call sIfNoneMatch = own (Header.get stored sETag) &&
+  Header.values call sIfModifiedSince = own (Header.get stored sLastModified)
+
 /-- 304 freshening (RFC 9111 §4.3.4 / §3.2): every field of the 304 except hop-by-hop fields,
     the fields its Connection names and Content-Length replaces the stored field; a stored Age is
     dropped (the age restarts from the 304) -/
